@@ -158,6 +158,55 @@ macro_rules! dispatch {
 }
 
 // ---------------------------------------------------------------------------------------------
+// `Rat` as a `Real` element type: only `sqrt` is exact (on perfect squares).  The other real
+// functions cannot be exact on rationals; reaching one is reported as a panic ("Rat
+// transcendental"), which never equals a model answer.  Used by C17 for covariances that must be
+// rejected by the Cholesky step before any of these functions is needed.
+// ---------------------------------------------------------------------------------------------
+
+macro_rules! rat_unreachable_unary {
+    ($Trait:ident, $method:ident) => {
+        impl easy_ml::numeric::extra::$Trait for Rat {
+            type Output = Rat;
+            fn $method(self) -> Rat {
+                panic!("Rat transcendental {}", stringify!($method))
+            }
+        }
+        impl<'a> easy_ml::numeric::extra::$Trait for &'a Rat {
+            type Output = Rat;
+            fn $method(self) -> Rat {
+                panic!("Rat transcendental {}", stringify!($method))
+            }
+        }
+    };
+}
+rat_unreachable_unary!(Exp, exp);
+rat_unreachable_unary!(Ln, ln);
+rat_unreachable_unary!(Sin, sin);
+rat_unreachable_unary!(Cos, cos);
+
+macro_rules! rat_unreachable_pow {
+    ($L:ty, $R:ty) => {
+        impl<'a, 'b> easy_ml::numeric::extra::Pow<$R> for $L {
+            type Output = Rat;
+            fn pow(self, _rhs: $R) -> Rat {
+                panic!("Rat transcendental pow")
+            }
+        }
+    };
+}
+rat_unreachable_pow!(Rat, Rat);
+rat_unreachable_pow!(Rat, &'b Rat);
+rat_unreachable_pow!(&'a Rat, Rat);
+rat_unreachable_pow!(&'a Rat, &'b Rat);
+
+impl easy_ml::numeric::extra::Pi for Rat {
+    fn pi() -> Rat {
+        panic!("Rat transcendental pi")
+    }
+}
+
+// ---------------------------------------------------------------------------------------------
 // exact checks of the defining identities (on the implementation's factors)
 // ---------------------------------------------------------------------------------------------
 
@@ -353,6 +402,53 @@ pub fn f64_input(kind: &str, rows: usize, cols: usize, seed: u64) -> Vec<f64> {
                 a[n + 1] = 4.0;
             } else {
                 a[0] = 0.0;
+            }
+            a
+        }
+        // zero at the reflected position of the first column, something non-zero below it
+        "zerolead" => {
+            let mut a = f64_matrix(&mut rng, rows, cols);
+            a[0] = 0.0;
+            if rows >= 2 && a[cols] == 0.0 {
+                a[cols] = 1.5;
+            }
+            a
+        }
+        // distinct unit vectors as columns (a permutation matrix when square): exact zeros at the
+        // reflected position of the first and of later columns
+        "perm" => {
+            let mut order: Vec<usize> = (0..rows).collect();
+            rng.shuffle(&mut order);
+            let mut a = vec![0.0; rows * cols];
+            for j in 0..cols {
+                a[order[j] * cols + j] = 1.0 + rng.below(3) as f64;
+            }
+            a
+        }
+        // the exchange matrix (ones on the anti-diagonal of the leading square block): [[0,1],[1,0]] …
+        "antidiag" => {
+            let mut a = vec![0.0; rows * cols];
+            for j in 0..cols {
+                a[(rows - 1 - j) * cols + j] = 1.0;
+            }
+            a
+        }
+        // the first `lead` columns are positive multiples of e_0 … e_{lead-1} (their reflections are
+        // exact sign flips), and the trailing block starts with an exact zero above non-zero entries:
+        // the zero sits at the reflected position of column `lead`
+        "stair" => {
+            let mut a = f64_matrix(&mut rng, rows, cols);
+            let lead = if cols >= 2 && rows >= 3 { 1 + rng.below((cols - 1).min(rows - 2)) } else { 0 };
+            for j in 0..lead {
+                for i in 0..rows {
+                    a[i * cols + j] = if i == j { 2.0 + j as f64 } else { 0.0 };
+                }
+            }
+            if lead < cols && lead < rows {
+                a[lead * cols + lead] = 0.0;
+                if lead + 1 < rows && a[(lead + 1) * cols + lead] == 0.0 {
+                    a[(lead + 1) * cols + lead] = -1.25;
+                }
             }
             a
         }
@@ -835,6 +931,15 @@ pub fn gen(g: &mut Gen) {
                 let via = *g.rng.pick(&VIAS);
                 g.op(format!("@ qr f64 {} {} full {} via={}", rows, cols, seed, via));
                 g.count(if cols > rows { "qr.f64.wide" } else { "qr.f64.full-rank" });
+                if cols <= rows && rows >= 2 {
+                    // an exact zero at the reflected position with something non-zero below it
+                    for kind in ["zerolead", "perm", "antidiag", "stair"] {
+                        let seed = g.rng.next() % 1_000_000_007;
+                        let via = *g.rng.pick(&VIAS);
+                        g.op(format!("@ qr f64 {} {} {} {} via={}", rows, cols, kind, seed, via));
+                        g.count(&format!("qr.f64.zero-at-reflected-position.{}", kind));
+                    }
+                }
             }
         }
     }
